@@ -42,6 +42,8 @@ struct World {
     bool finished[NL + 1] = {false, false, false, false};
     Val *stored_ref = nullptr;  // where a receiver saw the value stored by the last by-value / rvalue call
     bool capture = false;
+    int hook_registrations = 0;  // how often hook_up called the registration function
+    int hook_reawait = 0;        // 1: awaiting the hook_up emitter again after its disconnect is in progress, 2: it answered
     std::vector<int> cb_rec[2];  // callbacks: [0] returns true, [1] returns false
     int cb_connected[2] = {0, 0};
 };
@@ -180,7 +182,10 @@ static cocls::async<void> listener(World &w, int k) {
     w.finished[k] = true;
 }
 static cocls::async<void> hook_listener(World &w) {
-    auto e = Sig::hook_up([&w](Sig::collector c) { w.hook_col.emplace(std::move(c)); });
+    auto e = Sig::hook_up([&w](Sig::collector c) {
+        w.hook_registrations++;
+        w.hook_col.emplace(std::move(c));
+    });
     for (;;) {
         try {
             Val &v = co_await e;
@@ -190,6 +195,14 @@ static cocls::async<void> hook_listener(World &w) {
             break;
         }
     }
+    // awaiting the disconnected emitter once more fails the same way at once (it does not hook up a second time)
+    w.hook_reawait = 1;
+    try {
+        Val &v = co_await e;
+        w.rec[NL].push_back(v.get());
+    } catch (const cocls::await_canceled_exception &) {
+    }
+    w.hook_reawait = 2;
     w.finished[NL] = true;
 }
 
@@ -317,7 +330,17 @@ static void run_case(seqx::Runner &R, const std::vector<int> &seq) {
                     (*w->hook_col)(v);
                     break;
                 }
-                case HOOK_DROP: w->hook_col.reset(); break;
+                case HOOK_DROP:
+                    w->hook_col.reset();
+                    if (w->hook_reawait == 1) {
+                        R.fail("signal/listener-hangs-after-disconnect", "awaiting the hook_up emitter again after its disconnect did not fail at once: the listener is suspended again");
+                        ok = false;
+                    }
+                    if (w->hook_registrations > 1) {
+                        R.fail("signal/hook_up-registered-twice", "hook_up() called the registration function %d times", w->hook_registrations);
+                        ok = false;
+                    }
+                    break;
             }
             if (ok) ok = compare(i);
             uint64_t key = (uint64_t)m.handles() * 4 + m.hook_col;
